@@ -17,21 +17,24 @@ pub fn prop() -> Prop {
 
 fn spec() -> Spec {
     Spec {
-        kinds: vec![Kind { name: "ik_sound", quick: 800_000, thorough: 20_000_000, serial: false }],
+        kinds: vec![Kind { name: "ik_sound", quick: 800_000, thorough: 20_000_000, serial: false }, Kind { name: "shared_history", quick: 40_000, thorough: 1_000_000, serial: false }],
         rule: "each case = generated robot (all classes incl. degenerate, 64 sign patterns, offsets, dof 5/6) x pose (reachable / random SE(3) / reach boundary / wrist centre on axis 1 / wrist singular / hostile NaN-inf-nonunit) x previous (generating, shifted by turns, uniform, far outside, sentinel, non-finite) ; all four inverse entry points are called and EVERY returned vector is pushed through the reference chain; non-trivial = a call returned >= 1 vector; distinct = hash(robot, pose, previous, entry point)",
         assumptions: vec![
             "stated accuracy 1e-6 m / 1e-6 rad plus slack 1e-9 + 1e-12*reach for the difference between the library FK and the reference chain",
             "for hostile poses (non-finite, non-unit quaternion) only no-panic and finiteness are required: there is no SE(3) element to reproduce",
             "5-DOF entry points and dof-5 robots: position and tool axis only",
         ],
-        minimums: vec![("oracle_evals", 5_000_000, 100_000_000), ("returned_vectors", 3_000_000, 60_000_000), ("hostile_calls_survived", 100_000, 2_000_000)],
+        minimums: vec![("oracle_evals", 5_000_000, 100_000_000), ("returned_vectors", 3_000_000, 60_000_000), ("hostile_calls_survived", 100_000, 2_000_000), ("history.steps", 300_000, 7_000_000)],
     }
 }
 
 pub const POS_TOL: f64 = 1e-6;
 pub const ROT_TOL: f64 = 1e-6;
 
-fn run_case(_kind: &str, idx: u64, rng: &mut Rng, mon: &mut Mon, _tier: Tier) {
+fn run_case(kind: &str, idx: u64, rng: &mut Rng, mon: &mut Mon, _tier: Tier) {
+    if kind == "shared_history" {
+        return shared_history(idx, rng, mon);
+    }
     let robot = gen_robot(rng, idx, RobotMode::All, 0.2);
     let rp = robot.rp;
     let kin = OPWKinematics::new(to_params(&rp));
@@ -40,10 +43,6 @@ fn run_case(_kind: &str, idx: u64, rng: &mut Rng, mon: &mut Mon, _tier: Tier) {
     let (prev, prev_class) = gen_prev(rng, gp.q.as_ref(), rng.clone().usize(6));
     let _ = rng.next_u64();
     let j6 = *rng.pick(&[0.0, PI, -PI, 1.0, -2.5, 1e3]);
-    let reach = rp.reach();
-    let slack_p = 1e-9 + 1e-12 * reach;
-    let slack_r = 1e-9;
-    let target = iso_to_fr(&gp.iso);
     mon.count(&format!("pose_class.{}", gp.class));
     mon.count(&format!("prev_class.{}", prev_class));
     mon.count(&format!("robot_class.{}", robot.class));
@@ -53,9 +52,74 @@ fn run_case(_kind: &str, idx: u64, rng: &mut Rng, mon: &mut Mon, _tier: Tier) {
     if rp.b != 0.0 {
         mon.count("b_nonzero");
     }
+    check_calls(mon, &robot, &kin, &gp, &prev, prev_class, j6, &ENTRIES);
+}
 
-    for e in ENTRIES {
-        let res = call(&kin, e, &gp.iso, &prev, j6);
+/// History workload: several robots that share their link lengths (and so a good part of any key a
+/// cache might use) but differ in sign corrections / offsets / one length are asked for bit-identical
+/// poses and previous vectors one after the other ON THE SAME THREAD, each answer being checked against
+/// that robot's own reference chain. An answer may depend on the robot and the arguments only, not on
+/// what was asked before.
+fn shared_history(idx: u64, rng: &mut Rng, mon: &mut Mon) {
+    let first = gen_robot(rng, idx, RobotMode::All, 0.2);
+    let mut robots = vec![first.clone()];
+    for _ in 0..(1 + rng.usize(3)) {
+        let mut r = first.clone();
+        match rng.usize(4) {
+            0 => {
+                let j = rng.usize(6);
+                r.rp.signs[j] = -r.rp.signs[j];
+            }
+            1 => r.rp.offsets[rng.usize(6)] += *rng.pick(&[PI / 2.0, -PI / 2.0, 0.3, PI]),
+            2 => {
+                for j in 0..6 {
+                    if rng.bool(0.5) {
+                        r.rp.signs[j] = -r.rp.signs[j];
+                    }
+                    if rng.bool(0.3) {
+                        r.rp.offsets[j] += rng.range(-1.0, 1.0);
+                    }
+                }
+            }
+            _ => r.rp.c4 += rng.range(0.01, 0.1),
+        }
+        r.sign_pattern = 64;
+        robots.push(r);
+    }
+    let kins: Vec<OPWKinematics> = robots.iter().map(|r| OPWKinematics::new(to_params(&r.rp))).collect();
+    // shared targets: poses of the first robot (any class) asked of every robot
+    let n_targets = 1 + rng.usize(4);
+    let targets: Vec<_> = (0..n_targets).map(|_| { let c = rng.usize(5); gen_pose(rng, &first.rp, c) }).collect();
+    let prevs: Vec<_> = targets.iter().map(|t| gen_prev(rng, t.q.as_ref(), rng.clone().usize(6))).collect();
+    let _ = rng.next_u64();
+    let j6 = *rng.pick(&[0.0, 1.0, -2.5]);
+    // interleavings: target-major (robot changes between two identical queries) or robot-major with a repeat
+    let order = rng.usize(3);
+    let mut schedule: Vec<(usize, usize)> = vec![];
+    match order {
+        0 => for t in 0..n_targets { for r in 0..robots.len() { schedule.push((r, t)); } },
+        1 => { for r in 0..robots.len() { for t in 0..n_targets { schedule.push((r, t)); } } for t in 0..n_targets { for r in (0..robots.len()).rev() { schedule.push((r, t)); } } },
+        _ => for _ in 0..(2 * n_targets * robots.len()) { schedule.push((rng.usize(robots.len()), rng.usize(n_targets))); },
+    }
+    mon.count(&format!("history.order.{}", ["target_major", "robot_major_then_reverse", "random"][order]));
+    for (r, t) in schedule {
+        // one entry point per step, so that consecutive calls really alternate between robots
+        let e = [ENTRIES[rng.usize(4)]];
+        mon.count("history.steps");
+        check_calls(mon, &robots[r], &kins[r], &targets[t], &prevs[t].0, prevs[t].1, j6, &e);
+    }
+}
+
+#[allow(clippy::too_many_arguments)]
+fn check_calls(mon: &mut Mon, robot: &Robot, kin: &OPWKinematics, gp: &GenPose, prev: &[f64; 6], prev_class: &'static str, j6: f64, entries: &[Entry]) {
+    let rp = robot.rp;
+    let prev = *prev;
+    let reach = rp.reach();
+    let slack_p = 1e-9 + 1e-12 * reach;
+    let slack_r = 1e-9;
+    let target = iso_to_fr(&gp.iso);
+    for &e in entries {
+        let res = call(kin, e, &gp.iso, &prev, j6);
         let detail = |what: &str, extra: serde_json::Value| {
             let q = gp.iso.rotation.quaternion();
             json!({"robot": robot_json(&robot), "entry": e.name(), "pose_class": gp.class, "prev_class": prev_class,
@@ -118,8 +182,5 @@ fn run_case(_kind: &str, idx: u64, rng: &mut Rng, mon: &mut Mon, _tier: Tier) {
                 mon.held();
             }
         }
-    }
-    if idx < 2 {
-        mon.sample(json!({"robot": robot_json(&robot), "pose_class": gp.class, "prev_class": prev_class, "prev": jf(&prev)}));
     }
 }
